@@ -325,9 +325,10 @@ type walkObs struct {
 	// SequelHist: callbacks of a second, complete walk of the same root that
 	// was given the very same *WalkOptions value right after the first walk
 	// ended early (abort or unwinding); SequelRan says whether it was run
-	SequelHist []walkEvent
-	SequelRan  bool
-	Warmed     bool // the options value had served a complete walk before
+	SequelHist  []walkEvent
+	SequelRan   bool
+	Warmed      bool // the options value had served a complete walk before
+	Collections int  // garbage collections the scenario placed
 }
 
 // realWalk drives commonmark.Walk with the same tape.
@@ -412,6 +413,10 @@ func realWalk(v *walkView, ws *WalkScn, blocks []*commonmark.RootBlock, histCap 
 				return true
 			}
 			simrt.Yield(sitePre)
+			if ws.GC && obs.Callbacks == 2 {
+				collect() // in the middle of the walk
+				obs.Collections++
+			}
 			ev := inspect(c, false)
 			nested(c, ev)
 			obs.Callbacks++
@@ -461,6 +466,10 @@ func realWalk(v *walkView, ws *WalkScn, blocks []*commonmark.RootBlock, histCap 
 		commonmark.Walk(v.root, opts)
 		warming = false
 		obs.Warmed = true
+		if ws.GC {
+			collect()
+			obs.Collections++
+		}
 	}
 	func() {
 		defer func() {
@@ -477,6 +486,10 @@ func realWalk(v *walkView, ws *WalkScn, blocks []*commonmark.RootBlock, histCap 
 		// the caller keeps its options value and walks again, to completion
 		obs.SequelRan = true
 		sequel = true
+		if ws.GC {
+			collect()
+			obs.Collections++
+		}
 		tp.tape, tp.pos = "", 0
 		func() {
 			defer func() {
